@@ -57,7 +57,8 @@ def pop(op):
     if k == "sig":
         return f"  M#{op[1]}.{op[2]} = {'Port' if op[4]=='p' else 'Signal'}(width={op[3]}, dir={op[5]})"
     if k == "bun":
-        return f"  M#{op[1]}.{op[2]} = B#{op[3]}(port={op[4]}, flipped={op[5]})"
+        how = {"mul": "  [one of 3 * B()]", "flip": "  [flipped(B())]"}.get(op[6] if len(op) > 6 else "ctor", "")
+        return f"  M#{op[1]}.{op[2]} = B#{op[3]}(port={op[4]}, flipped={op[5]}){how}"
     if k == "inst":
         return f"  M#{op[1]}.{op[2]} = {pt(op[3])}({pconns(op[5])})  [{op[4]}]"
     if k == "arr":
